@@ -230,7 +230,7 @@ var c07Flat = registerSpace(&e1Space{
 		body = append(body, c07Post()...)
 		return b.program(body, cfg)
 	},
-	Extra:      c07VarMapOracle,
+	Extra:      c07NoDataAfter,
 	NonTrivial: func(p *rj.Program, ref rj.Result) bool { return true },
 })
 
@@ -392,6 +392,29 @@ func containsStr(s, sub string) bool {
 		}
 	}
 	return false
+}
+
+// c07NoDataAfter: the same template executed once more on the same Set without data: '.' is absent again (the
+// context of the execution before must not show through), everything else as the reference says.
+func c07NoDataAfter(p *rj.Program, ref rj.Result, got rj.ImplResult) string {
+	if why := c07VarMapOracle(p, ref, got); why != "" || got.AgainWith == nil || ref.Err != nil {
+		return why
+	}
+	q := *p
+	mk := p.Mk
+	q.Mk = func(log *[]string) rj.Inputs {
+		in := mk(log)
+		in.Data = nil
+		return in
+	}
+	r2 := rj.Eval(&q)
+	if r2.Unspec != "" {
+		return ""
+	}
+	if why := rj.Compare(r2, got.AgainWith(p.Entry, q.Mk)); why != "" {
+		return "executed once more, now without data: " + why
+	}
+	return ""
 }
 
 // c07VarMapOracle: after Execute the caller's VarMap has the reference's keys and values.
